@@ -322,11 +322,18 @@ func (m *Machine) shift(fr *frame, op token.Token, w int, signed bool, ty types.
 	}
 }
 
+// symFloat is the result of converting a symbolic integer to floating point.
+type symFloat struct{}
+
 func floatBinop(op token.Token, b *types.Basic, x, y Value) Value {
 	xf, ok1 := x.(float64)
 	yf, ok2 := y.(float64)
 	if !ok1 || !ok2 {
-		panic(pathEnd{kind: "unsupported", msg: "symbolic float"})
+		switch op {
+		case token.ADD, token.SUB, token.MUL, token.QUO:
+			return symFloat{}
+		}
+		panic(pathEnd{kind: "unsupported", msg: "comparison of a float derived from a symbolic integer"})
 	}
 	r := func(f float64) Value {
 		if b.Kind() == types.Float32 {
@@ -692,7 +699,9 @@ func (m *Machine) conv(fr *frame, tdst, tsrc types.Type, x Value) Value {
 					f = float64(uint64(x))
 				}
 			case *Term:
-				panic(pathEnd{kind: "unsupported", msg: "symbolic integer to float"})
+				return symFloat{} // opaque: only metrics consume it; any inspection is unsupported
+			case symFloat:
+				return x
 			}
 			if ud.Kind() == types.Float32 {
 				return float64(float32(f))
